@@ -3,8 +3,13 @@
 package main
 
 import (
+	"context"
 	"fmt"
+	"os"
+	"os/exec"
+	"path/filepath"
 	"strings"
+	"time"
 	"unicode/utf8"
 
 	"mvdan.cc/sh/v3/expand"
@@ -92,6 +97,68 @@ func c24ShowShell(r ShellResult) string {
 		return "error:" + hx(r.Err)
 	}
 	return fmt.Sprintf("out=%s st=%d", hx(r.Stdout), r.Status)
+}
+
+func c24Short(s string) string {
+	if len(s) > 160 {
+		return s[:150] + fmt.Sprintf("…(%d bytes)", len(s))
+	}
+	return s
+}
+
+// c24RunBash runs the script under bash like runShell, but collects stdout in a file of the
+// scratch directory (no copying goroutine, so nothing can be lost under machine load) and retries
+// once on a time-out.
+func c24RunBash(c *Ctx, script string) ShellResult {
+	var res ShellResult
+	for try := 0; try < 2; try++ {
+		res = c24RunBashOnce(c, script)
+		if !res.TimedOut {
+			break
+		}
+	}
+	return res
+}
+
+func c24RunBashOnce(c *Ctx, script string) ShellResult {
+	dir := scratchDir(c)
+	defer os.RemoveAll(dir)
+	work := filepath.Join(dir, "w")
+	os.MkdirAll(work, 0o755)
+	outPath := filepath.Join(dir, "stdout")
+	outF, err := os.Create(outPath)
+	if err != nil {
+		return ShellResult{Status: -1, Err: err.Error()}
+	}
+	defer outF.Close()
+	ctx, cancel := context.WithTimeout(context.Background(), 8*time.Second)
+	defer cancel()
+	cmd := exec.CommandContext(ctx, "bash", "--norc", "--noprofile", "-c", script, "sh")
+	cmd.Dir = work
+	cmd.Env = shellEnv(c, work)
+	cmd.Stdout = outF
+	cmd.Stderr = nil
+	cmd.Stdin = nil
+	err = cmd.Run()
+	var res ShellResult
+	if ctx.Err() != nil {
+		res.TimedOut = true
+		return res
+	}
+	b, rerr := os.ReadFile(outPath)
+	if rerr != nil {
+		return ShellResult{Status: -1, Err: rerr.Error()}
+	}
+	res.Stdout = string(b)
+	if err != nil {
+		if ee, ok := err.(*exec.ExitError); ok {
+			res.Status = ee.ExitCode()
+		} else {
+			res.Status = -1
+			res.Err = err.Error()
+		}
+	}
+	return res
 }
 
 // scriptable: the words can be put into a shell script (valid UTF-8, no NUL).
@@ -613,7 +680,14 @@ func c24GenRaw(r *Rand) (format string, args []string) {
 // ---------- one case ----------
 
 func c24RunBuiltin(c *Ctx, cmd string, words []string) string {
-	return c24ShowShell(runInterp(c, syntax.LangBash, c24Script(cmd, words)))
+	var got string
+	for try := 0; try < 3; try++ {
+		got = c24ShowShell(runInterp(c, syntax.LangBash, c24Script(cmd, words)))
+		if got != "timeout" { // a time-out of an in-process printf can only be machine load
+			break
+		}
+	}
+	return got
 }
 
 func c24(c *Ctx) {
@@ -640,6 +714,10 @@ func c24(c *Ctx) {
 			return
 		}
 		got := c24RunBuiltin(c, cmd, words)
+		if got == "timeout" {
+			c.Hist["interp-timeout-skipped"]++
+			return
+		}
 		c.Op(cmd+" "+hxs(words), got)
 		if class == c24Agree && !known {
 			c.Op("spec"+cmd+" "+hxs(words), got)
@@ -660,6 +738,17 @@ func c24(c *Ctx) {
 			words = append(words, unhx(h))
 		}
 		switch f[0] {
+		case "sh":
+			// a whole script, compared between interp and bash only
+			if len(words) == 1 {
+				script := words[0]
+				got := c24ShowShell(runInterp(c, syntax.LangBash, script))
+				want := c24ShowShell(c24RunBash(c, script))
+				if got != "timeout" && want != "timeout" && !strings.HasPrefix(want, "error:") && got != want {
+					c.Fail(l, fmt.Sprintf("%s: interp %s, bash %s", script, c24Short(got), c24Short(want)))
+				}
+				c.Case(l, true, "corpus")
+			}
 		case "printf", "echo":
 			if f[0] == "printf" && len(words) > 0 {
 				fmtCase(words[0], words[1:])
@@ -708,26 +797,27 @@ func c24(c *Ctx) {
 	// ---- bash leg ----
 	res := parallelMap(len(jobs), 8, func(i int) string {
 		j := jobs[i]
-		return c24ShowShell(runShell(c, "bash", c24Script(j.cmd, j.words)))
+		return c24ShowShell(c24RunBash(c, c24Script(j.cmd, j.words)))
 	})
 	nb := 0
 	for i, j := range jobs {
 		bash := res[i]
 		if strings.HasPrefix(bash, "timeout") || strings.HasPrefix(bash, "error:") {
+			c.Hist["bash-skipped:"+bash[:7]]++
+			if os.Getenv("C24_DEBUG") != "" {
+				fmt.Fprintf(os.Stderr, "skipped %q: %s\n", c24Script(j.cmd, j.words), bash)
+			}
 			continue
 		}
 		nb++
 		witness := j.cmd + " " + hxs(j.words)
-		// the specification against real bash (validates the Lean spec, not the implementation)
-		c.Op("bash"+j.cmd+" "+hxs(j.words), bash)
-		if j.known {
-			if bash != j.interp {
-				c.Fail(witness, fmt.Sprintf("%s: interp %s, bash %s", c24Script(j.cmd, j.words), j.interp, bash))
-			}
-			continue
+		// the specification against real bash (validates the Lean spec, not the implementation);
+		// skipped for the one huge-output witness
+		if len(bash) < 1<<16 {
+			c.Op("bash"+j.cmd+" "+hxs(j.words), bash)
 		}
-		if j.class == c24Agree && bash != j.interp {
-			c.Fail(witness, fmt.Sprintf("%s: interp %s, bash %s", c24Script(j.cmd, j.words), j.interp, bash))
+		if (j.known || j.class == c24Agree) && bash != j.interp {
+			c.Fail(witness, fmt.Sprintf("%s: interp %s, bash %s", c24Script(j.cmd, j.words), c24Short(j.interp), c24Short(bash)))
 		}
 	}
 	c.Extra["bash_runs"] = nb
